@@ -205,6 +205,14 @@ def op_slice(rng, f, ioapi_window=False):
             [], True, {'sel': sel, 'zipped': nlist > 1})
 
 
+def op_points(f, sel):
+    """pointwise selection: index lists of one length over two dimensions"""
+    kw = {k: refsel.dec_sel(s) for k, s in sel.items()}
+    return 'slice', ('sliceDimensions(%s)' % sel,
+                     (lambda: f.sliceDimensions(**kw)), [], True,
+                     {'sel': sel, 'zipped': True})
+
+
 def op_apply(rng, f):
     dims = [(k, len(d)) for k, d in f.dimensions.items()
             if len(d) > 0 and k in dims_used(f)]
@@ -730,7 +738,7 @@ CORE_OPS = {
 EXTRA_OPS = {'save_ioapi': op_save_ioapi}
 
 
-def run_program(f, prog_seed, nops, allowed=None, on_step=None):
+def run_program(f, prog_seed, nops, allowed=None, on_step=None, first=None):
     """Run up to nops random operations starting from f.  on_step(step, pre)
     is called around every operation: first with phase 'before' (returns an
     opaque pre-state), then with phase 'after'."""
@@ -743,7 +751,10 @@ def run_program(f, prog_seed, nops, allowed=None, on_step=None):
     trace = []
     for k in range(nops):
         made = None
-        for _ in range(8):
+        if k == 0 and first is not None:
+            # a program that starts with a given operation
+            name, made = first(cur)
+        for _ in range(8 if made is None else 0):
             name = names[int(rng.integers(len(names)))]
             try:
                 made = table[name](rng, cur)
